@@ -90,6 +90,21 @@ def run(ctx):
     if ngc == 0:
         raise vlib.ToolError("no warmer collection was observed (the lingering run did not happen)")
 
+    # the lock files themselves: .tantivy-meta.lock is what keeps the collector away from a loading reader
+    vlib.mc_check(ctx, "LockProto", "LockProto_meta.cfg", timeout=120, workers=2)
+    vlib.mc_check(ctx, "LockProto", "LockProto_writer.cfg", timeout=120, workers=2)
+    vlib.mc_check(ctx, "LockProto", "LockProto_negS13a.cfg", expect_violation="Mutex", timeout=120, workers=2)
+    vlib.mc_check(ctx, "LockProto", "LockProto_negS13b.cfg", expect_violation="Mutex", timeout=120, workers=2)
+    fp = ctx.path("flock.ndjson")
+    vlib.run_bin("flock_driver", ["run", "--seed", ctx.seed, "--rounds", 16 if ctx.quick else 160, "--threads", 4, "--out", fp], timeout=900)
+    fruns = [[{k: v for k, v in e.items() if k in ("ev", "t", "kind", "lock", "err")} for e in r] for r in vlib.split_runs(vlib.read_ndjson(fp))]
+    n4 = tracecheck.validate_runs(ctx, fruns, "flock", "LockMutexTrace", "LockMutexTrace.cfg",
+                                  key=lambda r: json.dumps([r[0].get("kind"), r[0].get("lock"), [[e["ev"], e.get("t")] for e in r[1:60]]]),
+                                  nontrivial=lambda r: sum(1 for e in r if e["ev"] == "enter") >= 10, timeout=300)
+    ctx.cov["traces_validated_against_impl"] += n4
+    ctx.cov["lock_rounds"] = {"rounds": len(fruns), "critical_sections": sum(1 for r in fruns for e in r if e["ev"] == "enter"), "accepted": n4}
+    log(f"[T] lock files (MmapDirectory flock, RamDirectory / SimDir lock-file protocol; meta and writer lock): {n4}/{len(fruns)} contention rounds accepted by LockMutexTrace")
+
     gp = ctx.path("gated.ndjson")
     vlib.run_bin("reader_driver", ["gated", "--seed", ctx.seed, "--runs", 10 if ctx.quick else 100, "--out", gp], timeout=900)
     gev = vlib.read_ndjson(gp)
